@@ -12,7 +12,7 @@ LEVEL = "model_checking"
 TIERS = {
     # BFS bound, simulation (behaviours, depth), cap on bash runs beyond the disagreements
     "quick":    {"MaxLen": 3, "MaxDepth": 2, "sim": (8, 7), "bash_cap": 2500},
-    "thorough": {"MaxLen": 3, "MaxDepth": 2, "sim": (400, 10), "bash_cap": 15000},
+    "thorough": {"MaxLen": 3, "MaxDepth": 2, "sim": (100, 10), "bash_cap": 6000},
 }
 FUEL = 150
 IMPL_TIMEOUT_MS = 2000
@@ -69,7 +69,7 @@ def run(ck):
     vecs = t.vecs.get("VEC", [])
     nbfs = len(vecs)
     n, depth = T["sim"]
-    sc = dict(consts, MaxLen=depth, EmitAt=depth)
+    sc = dict(consts, MaxLen=depth, EmitAt=depth, EmitTree=True)
     s = F.run_tlc(ck, "ShInterp", sc, ["Check"], simulate=n, depth=depth + 1, seed=ck.seed, timeout=2400)
     seen = set(json.dumps(v["ch"]) for v in vecs)
     for v in s.vecs.get("VEC", []):
@@ -89,6 +89,16 @@ def run(ck):
     L = F.load_layouts()[0]
     srcs = [F.render(v["r"], L) for v in scope]
     ires = F.run_impl(h, srcs, timeout_ms=IMPL_TIMEOUT_MS)
+    # parser self-check on the simulated programs (their vectors carry the tree): Abs(Parse(text)) = tree
+    withtree = [i for i, v in enumerate(scope) if "t" in v]
+    tres = F.run_impl(h, [srcs[i] for i in withtree], abs_=True, timeout_ms=IMPL_TIMEOUT_MS)
+    bad_tree = [i for i, r in zip(withtree, tres)
+                if r.get("abs") != F.norm_tree(scope[i]["t"]) and "Dev_TestBangPrecedence" not in scope[i]["trig"]]
+    ck.notes["parser_selfcheck"] = {"programs": len(withtree), "tree_differs": len(bad_tree),
+                                    "samples": [srcs[i] for i in bad_tree[:3]]}
+    if len(bad_tree) > max(3, 0.02 * len(withtree)):
+        raise vlib.Inconclusive("the parser builds a different tree than the generator for %d of %d programs, e.g. %r" % (
+            len(bad_tree), len(withtree), srcs[bad_tree[0]]))
     fields = [vec_fields(v) for v in scope]
     mism = [i for i, (f, r) in enumerate(zip(fields, ires)) if (r.get("out"), r.get("status")) != f[0]]
 
